@@ -45,6 +45,8 @@ func opSite(o op) string {
 		return modNames[o.X] + ".reenter"
 	case kStore:
 		return fmt.Sprintf("store:%d", o.X)
+	case kFailInst:
+		return fmt.Sprintf("failing-instantiation:%s:%d", failKindNames[o.X], o.A)
 	}
 	return "op:" + strings.SplitN(o.String(), "{", 2)[0]
 }
@@ -114,10 +116,52 @@ func (t *twinHost) release(eng int, tainted bool) {
 
 var twins twinHost
 
+// twinTrace is what the twin world answered: it is produced BEFORE the world under test executes anything, so no
+// forced collection of this history can run while the twin's objects of this history matter (GOGC=off: the only
+// collections are the forced ones). "Nothing is closed, dropped or collected" holds for the twin by construction,
+// also for objects the host has no handle to (a failed instantiation's instance).
+type twinTrace struct {
+	ops    []string
+	probes map[string]string
+}
+
+func runTwin(tw *world, h history) (tt twinTrace) {
+	tt.probes = map[string]string{}
+	for _, c := range h.Init.Mods {
+		if r := tw.do(op{K: kInst, X: int(c - 'A')}); r != "ok" {
+			fw.Fatalf("twin: initial graph %q: instantiate %c: %s", h.Init.Mods, c, r)
+		}
+	}
+	for _, o := range h.Ops {
+		r := "ok"
+		switch o.K {
+		case kInst:
+			// executed even if the world under test will fail to instantiate it: probes of other modules do not depend on it
+			if tw.inst[o.X] == nil {
+				r = tw.do(o)
+			}
+		case kStore, kReenter, kFailInst:
+			r = tw.do(o)
+		}
+		tt.ops = append(tt.ops, r)
+	}
+	for x := 0; x < 3; x++ {
+		if tw.inst[x] == nil {
+			continue
+		}
+		for _, fn := range probeFns[x] {
+			_, tt.probes[modNames[x]+"."+fn] = tw.call(x, fn)
+		}
+	}
+	return tt
+}
+
 // execHistory runs h on engine eng. mark is called before every step that can fault.
 func execHistory(h history, eng int, mark func(step int, site, phase string)) (res caseResult) {
 	res.Outs = map[string]int{}
+	mark(-1, "twin", "twin")
 	tw := twins.get(eng)
+	tt := runTwin(tw, h)
 	// only modules the history can touch are compiled (an uninstantiated, unmentioned module is not part of the world)
 	var need [3]bool
 	for _, c := range h.Init.Mods {
@@ -137,8 +181,8 @@ func execHistory(h history, eng int, mark func(step int, site, phase string)) (r
 	s := h.Init.state()
 	for _, c := range h.Init.Mods {
 		o := op{K: kInst, X: int(c - 'A')}
-		if a, b := w.do(o), tw.do(o); a != "ok" || b != "ok" {
-			fw.Fatalf("initial graph %q: instantiate %c: test=%s twin=%s", h.Init.Mods, c, a, b)
+		if a := w.do(o); a != "ok" {
+			fw.Fatalf("initial graph %q: instantiate %c: %s", h.Init.Mods, c, a)
 		}
 	}
 	fail := func(step int, site, phase, kind, test, twin string) caseResult {
@@ -160,13 +204,13 @@ func execHistory(h history, eng int, mark func(step int, site, phase string)) (r
 		case kInst:
 			if test != "ok" {
 				operr = true // ordinary failure to instantiate; the twin skips the operation as well
-			} else if t := tw.do(o); t != "ok" {
+			} else if t := tt.ops[k]; t != "ok" {
 				fw.Fatalf("twin: %s: %s", o, t)
 			}
 		case kFresh, kCloseInst, kCloseComp, kCloseCache, kCloseRt, kDrop, kGC:
 			operr = test != "ok"
 		case kStore:
-			t := tw.do(o)
+			t := tt.ops[k]
 			if t != "ok" {
 				fw.Fatalf("twin: %s: %s", o, t)
 			}
@@ -175,8 +219,22 @@ func execHistory(h history, eng int, mark func(step int, site, phase string)) (r
 				return fail(k, site, "op", kind, test, t)
 			}
 			operr = cl == "ordinary-error"
+		case kFailInst:
+			// the twin instantiates the same module the same way: it fails there too and its table write persists
+			t := tt.ops[k]
+			if !strings.HasPrefix(t, "inst-failed:") {
+				fw.Fatalf("twin: %s: %s", o, t)
+			}
+			switch {
+			case test == t:
+				res.Outs["failing-instantiation:same-error"]++
+			case strings.HasPrefix(test, "inst-failed:") && isOrdinary(strings.TrimPrefix(test, "inst-failed:")) && s.anyClosed():
+				operr = true
+			default:
+				return fail(k, site, "op", "diverged", test, t)
+			}
 		case kReenter:
-			t := tw.do(o)
+			t := tt.ops[k]
 			if !strings.HasPrefix(t, "v:") {
 				fw.Fatalf("twin: %s: %s", o, t)
 			}
@@ -195,7 +253,7 @@ func execHistory(h history, eng int, mark func(step int, site, phase string)) (r
 				return res
 			}
 			res.Status = "operr"
-			if o.K == kStore {
+			if o.K == kStore || o.K == kFailInst {
 				return res // the slot may or may not have been written: no probes
 			}
 		} else {
@@ -216,7 +274,7 @@ func execHistory(h history, eng int, mark func(step int, site, phase string)) (r
 				site := modNames[x] + "." + fn
 				mark(len(h.Ops), site, phase)
 				_, test := w.call(x, fn)
-				_, twin := tw.call(x, fn)
+				twin := tt.probes[site]
 				res.Probes++
 				cl, kind := judge(test, twin, s)
 				if kind != "" {
@@ -237,6 +295,9 @@ func execHistory(h history, eng int, mark func(step int, site, phase string)) (r
 const knownSig = "rawref:no-import-edge:owner-closed-and-collected"
 
 func modStatus(s state, x int) string {
+	if x == mD {
+		return "instantiation-failed,import-edge-to-A.tab"
+	}
 	st := [...]string{"none", "open", "closed"}[s.Inst[x]]
 	if s.Comp[x] {
 		st += "+code-closed"
@@ -274,7 +335,7 @@ func classify(s state, eng int, f stepFail) (sig string, known bool) {
 		fn := s.Slots[sl]
 		d := slotNames[sl] + "=" + fnNames[fn]
 		if fn != fNull {
-			d += "(owner " + modNames[fnOwner[fn]] + ":" + modStatus(s, fnOwner[fn]) + ")"
+			d += "(owner " + "ABCD"[fnOwner[fn]:fnOwner[fn]+1] + ":" + modStatus(s, fnOwner[fn]) + ")"
 		}
 		parts = append(parts, d)
 	}
